@@ -27,6 +27,7 @@ K_INV = 'C09:spatial_inversion:infinite:_S-reversed-instead-of-mirrored-around-b
 K_GROUP = 'C09:group_sites:last-group-has-one-site:get_theta(n=1)-ignores-formL-formR'
 K_ADD = 'C09:add:same-charge-sector:per-tensor-qtotal-differs:ValueError-wrong-qtotal'
 K_CPLX = 'C09:apply_local_op:infinite:complex-nonunitary-op-on-real-iMPS:canonical_form_infinite1-result-not-canonical'
+K_SINGLE = 'C09:apply_product_op:ops-is-a-single-npc-Array:TypeError-no-len'
 K_EES = 'C09:extract_enlarged_segment:one-side-unchanged:segment_boundaries-overwritten-with-old-ones'
 K_ENL = 'C09:enlarge_chi:int-extra:mod-N-charge:vL-leg-with-qconj=-1(after-spatial_inversion):invalid-charge'
 REFUSALS = ('QR for Gram-Schmidt messed up charges', "can't extract JW signs from the charges")
@@ -368,6 +369,8 @@ class FRef:
         self.trunc = None
         self.reseed = None
         self.raw_ratio = 1.
+        if 'must_raise' in op:
+            return                                    # documented refusal: the state stays as it is
         if t == 'apply_local_op':
             i = op['i'] % L
             if 'name' in op:
@@ -484,6 +487,15 @@ class FRef:
 
 def cplx_mat(m):
     return np.array(m[0]) + 1j * np.array(m[1])
+
+
+def check_refusal(op, ex, failf):
+    if ex.get('raised') is None:
+        failf('the call was accepted although the documentation excludes it (%s)' % op['must_raise'])
+    elif ex['raised'][0] not in ('ValueError', 'NotImplementedError', 'AssertionError', 'TypeError'):
+        failf('refused with %s: %s instead of a ValueError (%s)' % (ex['raised'][0], ex['raised'][1], op['must_raise']))
+    if 'changed' in ex:
+        failf('the refused call modified the state: ' + ex['changed'])
 
 
 def check_enlarge_perms(A, prev_kk, prev_o, kk, o, ex, finite, failf):
@@ -634,6 +646,13 @@ def check_reseed(ref, prev_vec, prev_kinds, prev_nvirt, op, ex, cur, o, A, kk, S
     return None
 
 
+def leg_order_only(o, ops_before):
+    """test_sanity complains only about the ORDER of the legs of a tensor after apply_product_op(unitary=True), which writes
+    tensordot(op, B) (legs p, vL, vR) back without canonical_form: every accessor works by leg label, the state is compared
+    as usual; the storage order of legs is not a statement of the property"""
+    return 'B has wrong labels' in o['sanity'] and any(o2['op'] == 'apply_product_op' and o2.get('unitary') is True for o2 in ops_before)
+
+
 def obs_dense(A, kk, o, seg):
     """the dense state an observation denotes (psi.norm included), in the layout of FRef; None + reason when it cannot
     be formed"""
@@ -725,6 +744,8 @@ def check_finite_case(ctx, case, r, A, key, D, SI, perm_lits, perm_meta):
                 ctx.count(bcname + '-zero-result', [spec, ops[:k]], nontrivial=False)
                 return
             ex = r['extra'][k - 1] if k - 1 < len(r['extra']) else {}
+            if 'must_raise' in op and ex:
+                check_refusal(op, ex, lambda m_: fail(m_, k))
             if op['op'] == 'permute_sites' and prev is not None and ex:
                 dims_b = prev['dims']
                 dims_a = o['dims'] if o else None
@@ -750,7 +771,7 @@ def check_finite_case(ctx, case, r, A, key, D, SI, perm_lits, perm_meta):
         S = ref.S()
         L = len(ref.kinds)
         opn = ops[k - 1] if k > 0 else None
-        if 'sanity' in o:
+        if 'sanity' in o and not leg_order_only(o, ops[:k]):
             fail('test_sanity raises ' + o['sanity'], k)
         nrm = cplx(o['norm'])
         now_seg = o['bc'] == 'segment'
@@ -931,6 +952,8 @@ class IRef:
         self._tm = None
         self.raw_ratio = 1.
         self.reseed = None
+        if 'must_raise' in op:
+            return
         if t == 'roll_mps_unit_cell':
             k = op.get('shift', 1)
             self.Ms = [self.Ms[(j - k) % L] for j in range(L)]
@@ -1245,9 +1268,16 @@ def check_infinite_case(ctx, case, r, A, key, D, SI, perm_lits, perm_meta):
                 if o is not None:
                     check_inf_segment(ref, op, o, A, '%s_%d' % (key, k), lambda m_: fail(m_, k))
                 return
+            if 'must_raise' in op and ex:
+                check_refusal(op, ex, lambda m_: fail(m_, k))
             ref.apply(op)
             if not (ref.raw_ratio > 1e-9):
                 ctx.count('infinite-zero-result', [spec, ops[:k]], nontrivial=False)    # nothing to compare with
+                return
+            if op['op'].startswith('apply_') and ref.tm().gap > 1 - 1e-7:
+                # the documented result has a degenerate dominant transfer-matrix eigenvalue: a superposition of several
+                # pure infinite states, for which no canonical form (unique Schmidt decomposition per bond) exists
+                ctx.count('infinite-degenerate-result', [spec, ops[:k]], nontrivial=False)
                 return
             if op['op'] == 'permute_sites' and prev is not None and o is not None and ex:
                 perm_lits.append(coq_lit((list(op['perm']), prev['dims'], [Nat(x) for x in ex['swaps']], o['dims'])))
@@ -1264,7 +1294,7 @@ def check_infinite_case(ctx, case, r, A, key, D, SI, perm_lits, perm_meta):
         if o is None:
             continue
         kk = '%s_%d' % (key, k)
-        if 'sanity' in o:
+        if 'sanity' in o and not leg_order_only(o, ops[:k]):
             fail('test_sanity raises ' + o['sanity'], k)
         nrm = cplx(o['norm'])
         if ref.reseed:
@@ -1487,7 +1517,8 @@ def main(ctx):
                              e['type'], e['msg'][:200]), info, match_key='C09:%s:%s:JW-refused' % (bc, opx['op']))
             elif any(m in e['msg'] for m in REFUSALS):
                 ctx.count(bc + '-refused', [spec, case['ops']], nontrivial=False)     # explicit, documented refusal
-            elif opx['op'] == 'gauge_total_charge' and e['type'] == 'NotImplementedError' and bc == 'segment':
+            elif opx['op'] in ('gauge_total_charge', 'add') and e['type'] == 'NotImplementedError' and 'could be implemented' in e['msg'] and \
+                    (bc == 'segment' or any(o2['op'] == 'extract_segment' for o2 in case['ops'][:e['step']])):
                 ctx.count(bc + '-refused', [spec, case['ops']], nontrivial=False)     # explicit refusal: segment with recorded boundaries
             elif opx['op'] in APPLY_OPS and documented_zero(case, D, SI, e['step'],
                                                             v0=obs_dense(A, key + '_0', r['obs'][0], True)[0] if bc == 'segment' else None):
@@ -1508,6 +1539,9 @@ def main(ctx):
                     any(o2['op'] == 'spatial_inversion' for o2 in case['ops'][:e['step']]):
                 ctx.fail('oracle', 'enlarge_chi with an integer extra leg raises ValueError(charges invalid) for mod-N charges after spatial_inversion '
                          '(vL legs then have qconj=-1 and get_charge returns -q, which is not reduced mod N)', info, match_key=K_ENL)
+            elif opx['op'] == 'apply_product_op' and e['type'] == 'TypeError' and 'has no len' in e['msg'] and not isinstance(opx.get('single', ''), str):
+                ctx.fail('oracle', 'apply_product_op(ops) with a single npc.Array (documented: "(list of) str | npc.Array") raises TypeError: ' + e['msg'][:80],
+                         info, match_key=K_SINGLE)
             elif opx['op'] == 'add' and 'wrong qtotal' in e['msg']:
                 ctx.fail('oracle', 'add() of two finite MPS in the same charge sector raises ValueError(wrong qtotal): the total charge is '
                          'distributed differently over the tensors of the two states', info, match_key=K_ADD)
